@@ -21,6 +21,7 @@ structure SegPre (s : MediaSegment) : Prop where
   map : ∀ m, s.map = some m → MapOK m
   range : ∀ r, s.byte_range = some r → r.WF
   pdt : ∀ t, s.program_date_time = some t → PdtOK t
+  dr : ∀ d, s.date_range = some d → DateRangePre d
   title : TitleOK s.duration
   uri : LineRT (.uri s.uri)
 
@@ -34,15 +35,16 @@ structure StGood (st : PState) : Prop where
   brange : ∀ r, st.segment.byte_range = some r → r.WF
   bpdt : ∀ t, st.segment.program_date_time = some t → PdtOK t
   btitle : ∀ t, st.segment.duration = some t → TitleOK t
+  bdr : ∀ d, st.segment.date_range = some d → DateRangePre d
   segs : ∀ s ∈ st.segments, SegPre s
 
 theorem stGood_step (st st' : PState) (l : Line) (hi : StGood st) (hl : LineGood l)
     (h : mediaStep st l = .ok st') : StGood st' := by
-  obtain ⟨i1, i2, i3, i4, i5, i6, i7, i8, i9, i10⟩ := hi
+  obtain ⟨i1, i2, i3, i4, i5, i6, i7, i8, i9, i11, i10⟩ := hi
   cases l <;> simp only [mediaStep] at h
   case key k =>
     simp only [Res.ok.injEq] at h; subst h
-    refine ⟨i1, i2, i3, i4, ?_, i6, i7, i8, i9, i10⟩
+    refine ⟨i1, i2, i3, i4, ?_, i6, i7, i8, i9, i11, i10⟩
     intro x hx
     rcases mem_updateKeys _ _ _ hx with rfl | hx
     · exact hl.1
@@ -57,12 +59,12 @@ theorem stGood_step (st st' : PState) (l : Line) (hi : StGood st) (hl : LineGood
         simp only [Res.ok.injEq] at hb; subst hb
         simp only [Option.some.injEq] at hu; subst hu
         refine ⟨i1, i2, i3, i4, i5, (fun m e => by cases e), (fun r e => by cases e), (fun t e => by cases e),
-          (fun t e => by cases e), ?_⟩
+          (fun t e => by cases e), (fun t e => by cases e), ?_⟩
         intro s hs
         simp only [List.mem_append, List.mem_singleton] at hs
         rcases hs with hs | rfl
         · exact i10 s hs
-        · exact ⟨by simpa using i5, i6, i7, i8, i9 d hd, hl.2⟩
+        · exact ⟨by simpa using i5, i6, i7, i8, i11, i9 d hd, hl.2⟩
       · cases hb
     · cases h
     · cases h
@@ -72,35 +74,38 @@ theorem stGood_step (st st' : PState) (l : Line) (hi : StGood st) (hl : LineGood
     · split at h
       · cases h
       · simp only [Res.ok.injEq] at h; subst h
-        exact ⟨i1, i2, (fun m e => by simp only [Option.some.injEq] at e; subst e; exact hl.1), i4, i5, i6, i7, i8, i9, i10⟩
+        exact ⟨i1, i2, (fun m e => by simp only [Option.some.injEq] at e; subst e; exact hl.1), i4, i5, i6, i7, i8, i9, i11, i10⟩
   case inf t =>
     simp only [Res.ok.injEq] at h; subst h
-    exact ⟨i1, i2, i3, i4, i5, i6, i7, i8, (fun t' e => by simp only [Option.some.injEq] at e; subst e; exact hl.1), i10⟩
+    exact ⟨i1, i2, i3, i4, i5, i6, i7, i8, (fun t' e => by simp only [Option.some.injEq] at e; subst e; exact hl.1), i11, i10⟩
   case byteRange r =>
     simp only [Res.ok.injEq] at h; subst h
-    exact ⟨i1, i2, i3, i4, i5, i6, (fun t' e => by simp only [Option.some.injEq] at e; subst e; exact hl.1), i8, i9, i10⟩
+    exact ⟨i1, i2, i3, i4, i5, i6, (fun t' e => by simp only [Option.some.injEq] at e; subst e; exact hl.1), i8, i9, i11, i10⟩
   case map m =>
     simp only [Res.ok.injEq] at h; subst h
-    exact ⟨i1, i2, i3, i4, i5, (fun t' e => by simp only [Option.some.injEq] at e; subst e; exact hl.1), i7, i8, i9, i10⟩
+    exact ⟨i1, i2, i3, i4, i5, (fun t' e => by simp only [Option.some.injEq] at e; subst e; exact hl.1), i7, i8, i9, i11, i10⟩
   case programDateTime t =>
     simp only [Res.ok.injEq] at h; subst h
-    exact ⟨i1, i2, i3, i4, i5, i6, i7, (fun t' e => by simp only [Option.some.injEq] at e; subst e; exact hl.1), i9, i10⟩
+    exact ⟨i1, i2, i3, i4, i5, i6, i7, (fun t' e => by simp only [Option.some.injEq] at e; subst e; exact hl.1), i9, i11, i10⟩
   case targetDuration d =>
     simp only [Res.ok.injEq] at h; subst h
-    exact ⟨(fun t' e => by simp only [Option.some.injEq] at e; subst e; exact hl.1), i2, i3, i4, i5, i6, i7, i8, i9, i10⟩
+    exact ⟨(fun t' e => by simp only [Option.some.injEq] at e; subst e; exact hl.1), i2, i3, i4, i5, i6, i7, i8, i9, i11, i10⟩
   case mediaSequence n =>
     simp only [Res.ok.injEq] at h; subst h
-    exact ⟨i1, (fun t' e => by simp only [Option.some.injEq] at e; subst e; exact hl.1), i3, i4, i5, i6, i7, i8, i9, i10⟩
+    exact ⟨i1, (fun t' e => by simp only [Option.some.injEq] at e; subst e; exact hl.1), i3, i4, i5, i6, i7, i8, i9, i11, i10⟩
+  case dateRange d =>
+    simp only [Res.ok.injEq] at h; subst h
+    exact ⟨i1, i2, i3, i4, i5, i6, i7, i8, i9, (fun t' e => by simp only [Option.some.injEq] at e; subst e; exact hl.1), i10⟩
   case unknown u =>
     simp only [Res.ok.injEq] at h; subst h
-    refine ⟨i1, i2, i3, ?_, i5, i6, i7, i8, i9, i10⟩
+    refine ⟨i1, i2, i3, ?_, i5, i6, i7, i8, i9, i11, i10⟩
     intro x hx
     simp only [List.mem_append, List.mem_singleton] at hx
     rcases hx with hx | rfl
     · exact i4 x hx
     · exact hl.2
   all_goals first
-    | (simp only [Res.ok.injEq] at h; subst h; exact ⟨i1, i2, i3, i4, i5, i6, i7, i8, i9, i10⟩)
+    | (simp only [Res.ok.injEq] at h; subst h; exact ⟨i1, i2, i3, i4, i5, i6, i7, i8, i9, i11, i10⟩)
     | (cases h)
 
 theorem stGood_fold (ls : List Line) (st st' : PState) (hi : StGood st) (hl : ∀ l ∈ ls, LineGood l)
@@ -189,6 +194,7 @@ structure SegOut (s : MediaSegment) : Prop where
   map : ∀ m, s.map = some m → MapOK m
   range : ∀ r, s.byte_range = some r → r.WF
   pdt : ∀ t, s.program_date_time = some t → PdtOK t
+  dr : ∀ d, s.date_range = some d → DateRangePre d
   title : TitleOK s.duration
   uri : LineRT (.uri s.uri)
 
@@ -207,16 +213,17 @@ theorem built_out (seq : Nat) (a b : List MediaSegment) (i : Nat) (prev : Option
       rcases List.mem_cons.mp hs with rfl | hs
       · obtain ⟨number, br, _, hr, rfl⟩ := buildOne_ok seq i prev x _ h1
         have px := ha x (by simp)
-        exact ⟨keys_built_wf number x.keys px.keys, px.map, resolveRange_wf prev x.byte_range br px.range hr, px.pdt, px.title, px.uri⟩
+        exact ⟨keys_built_wf number x.keys px.keys, px.map, resolveRange_wf prev x.byte_range br px.range hr, px.pdt, px.dr, px.title, px.uri⟩
       · exact ih ys _ _ h2 (fun s hs => ha s (by simp [hs])) s hs
 
 /-- what the text cannot guarantee by itself: Rust's decimal formatting of each EXTINF duration parses
 back to the same duration and the EXT-X-START offset reads back (facts about `f32`/`f64` `Display`: FL2, FL1 in
-the trusted base), and the line-level round trip of EXT-X-DATERANGE, whose `LineRT` is not proved here -/
+the trusted base); for EXT-X-DATERANGE the same two kinds of float facts and that SCTE35 values are plain
+tokens (`DateRangeOpen`) -/
 structure MediaOpen (p : MediaPlaylist) : Prop where
   secs : ∀ s ∈ p.segments, parseSecs (showSecs s.duration.duration) = .ok s.duration.duration ∧
     plainVal (showSecs s.duration.duration) = true
-  dateRange : ∀ s ∈ p.segments, ∀ d, s.date_range = some d → LineRT (.dateRange d)
+  dateRange : ∀ s ∈ p.segments, ∀ d, s.date_range = some d → DateRangeOpen d
   start : ∀ s, p.start = some s → FloatRT s.time_offset
 
 /-- **every playlist assembled from good lines is in the writer's domain** -/
@@ -226,7 +233,7 @@ theorem assembled_mediaWF (e : Option Nat) (ls : List Line) (p : MediaPlaylist) 
   have init : StGood { builder := bE e } :=
     ⟨fun d e => (by cases e), fun d e => (by cases e), fun d e => (by cases e), fun u hu => (by cases hu),
      fun k hk => (by cases hk), fun m e => (by cases e), fun m e => (by cases e), fun m e => (by cases e),
-     fun m e => (by cases e), fun s hs => (by cases hs)⟩
+     fun m e => (by cases e), fun m e => (by cases e), fun s hs => (by cases hs)⟩
   have sg := stGood_fold ls _ st init hg hf
   have hfin : mediaFinish st = .ok p := by
     unfold assembleMedia at h; rw [hf] at h; exact h
@@ -244,6 +251,6 @@ theorem assembled_mediaWF (e : Option Nat) (ls : List Line) (p : MediaPlaylist) 
   · rw [hunk]; exact sg.unknown
   · intro s hs
     have o := hout s hs
-    exact ⟨o.keys, o.map, o.range, ho.dateRange s hs, o.pdt, ho.secs s hs, o.title, o.uri⟩
+    exact ⟨o.keys, o.map, o.range, fun d hd => dateRange_wf_of d (o.dr d hd) (ho.dateRange s hs d hd), o.pdt, ho.secs s hs, o.title, o.uri⟩
 
 end Hls
